@@ -635,12 +635,27 @@ def probe_names():
     return PROBE_NAMES
 
 
+STANDARD_NAMES = None
+
+
+def standard_names():
+    """global names of a fresh engine (built-ins + prelude) and the names the probe itself uses"""
+    global STANDARD_NAMES
+    if STANDARD_NAMES is None:
+        rc, out = C.sh([BIN, "globals"], timeout=120)
+        STANDARD_NAMES = {l.strip() for l in out.splitlines() if l.strip() and not l.startswith("WARNING")} | probe_names()
+    return STANDARD_NAMES
+
+
 def redefines_probe_name(text):
-    names = probe_names()
-    for m in re.finditer(r"\(\s*(?:define|define-values|set!|define-syntax|defmacro|struct|define/contract|#%define)\s+\(*\s*([^\s()\[\]]+)", text):
+    """does the text (try to) rebind a standard name?  The probe promises its fixed results only while the standard
+    procedures and macros it is written with keep their meaning; a text that defines / assigns one of them — also a
+    text that fails before the redefinition is executed (C06's finding K06b leaves such a name unassigned) — may
+    change the probe legitimately, and a probe difference after it is not held against C07."""
+    names = standard_names()
+    for m in re.finditer(r"\(\s*(?:define|define-values|set!|define-syntax|defmacro|struct|define/contract|#%define|define-syntax-rule)\s+\(*\s*([^\s()\[\]]+)", text):
         if m.group(1) in names:
             return m.group(1)
-    # macros named like a probe name, keyword-ish rebinding through require prefixes etc. are not excused
     return None
 
 
